@@ -16,7 +16,7 @@ def obligations(tier):
     o = ob("C01", "e2c.D14", "vt.harness.C01:justified", {"did": "D14", "steps": 11, "statuses": ["succeeded"], "max_inflight": 2}, timeout=1800)
     o["antecedents"] = ["c01_final"]
     obs.append(o)
-    o = ob("C01", "e2c.lazy.D14", "vt.harness.C01:justified", {"did": "D14", "steps": 11, "statuses": ["succeeded"], "max_inflight": 1, "order": False, "lazy_start": 2}, timeout=1800)
+    o = ob("C01", "e2c.lazy.D14", "vt.harness.C01:justified", {"did": "D14", "steps": 11, "statuses": ["succeeded"], "max_inflight": 1, "order": False, "lazy_start": 3}, timeout=1800)
     obs.append(o)
     obs.append(ob("C01", "twin.D03", "vt.harness.C01:justified", {"did": "D03", "steps": 5, "bits": True, "twin": True}, timeout=60))
     for o in obs:
